@@ -9,7 +9,7 @@ from props.framing import block_ref, vbs_ref, read_all_impl, hlist
 ID = 'C19'
 RULE = ('writer-produced IPM files (PDS, ICC, typed fields, element subsets) and arbitrary-byte parameter files x ordered pairs of '
         '{latin_1, cp500, cp037} x {vbs,1014}^2, through the tool functions mci_ipm_encode and mci_ipm_param_encode on BytesIO and '
-        'through the command entry points (mci_ipm_encode, mideu convert, mci_ipm_param_encode, paramconv with and without -o) on '
+        'through the command entry points (mci_ipm_encode, mideu convert - also with a value-changing user configuration in $CARDUTIL_CONFIG -, mci_ipm_param_encode, paramconv with and without -o) on '
         'real temporary files; one case in four has A = B (format-only conversion); A->B then B->A must reproduce the original bytes; non-trivial = distinct case with at least 2 records')
 EXHAUSTIVE = {}
 ASSUMPTIONS = ['argparse wiring, file opening and printing are exercised by the run only (no theorem about them)']
@@ -32,8 +32,8 @@ def gen(rng, tier):
         a, b = pair(rng)
         fa, fb = rng.random() < 0.5, rng.random() < 0.5
         msgs = [iu.dict_text(iu.rand_message_fit(rng, pk, a, nbits=rng.choice([1, 3, 8, 20]))) for _ in range(rng.choice([1, 2, 5, 12]))]
-        via = ['func', 'cli', 'mideu'][i % 3]
-        if via == 'mideu':
+        via = ['func', 'cli', 'mideu', 'func', 'cli', 'mideu-env'][i % 6]
+        if via.startswith('mideu'):
             a, b = rng.choice([('cp500', 'latin_1'), ('latin_1', 'cp500')])
             fb = fa
             msgs = [iu.dict_text(iu.rand_message_fit(rng, pk, a, nbits=rng.choice([1, 3, 8, 20]))) for _ in range(rng.choice([1, 2, 5]))]
@@ -81,9 +81,30 @@ def run_tool(case, data, a, b, fa, fb):
                 mod = mci_ipm_encode if case['kind'] == 'ipm' else mci_ipm_param_encode
                 args = [path, '-o', outp, '--in-encoding', a, '--out-encoding', b, '--in-format', fmt(fa), '--out-format', fmt(fb)]
                 mod.cli_run(**vars(mod.cli_parser().parse_args(args)))
-            elif via == 'mideu':
+            elif via in ('mideu', 'mideu-env'):
                 outp = path + '.out'
-                mideu.cli_entry(['convert', path, '-s', 'ebcdic' if a == 'cp500' else 'ascii'] + ([] if fa else ['--no1014blocking']))
+                envdir = None
+                if via == 'mideu-env':
+                    # a user configuration is in force ($CARDUTIL_CONFIG/cardutil.json) that would change values if the
+                    # conversion decoded with it: PAN masking on DE2, DE55 as plain text, another DE43 pattern
+                    import json
+                    from cardutil.config import config as pkg
+                    c = json.loads(json.dumps(pkg))
+                    c['bit_config']['2']['field_processor'] = 'PAN'
+                    c['bit_config']['55'].pop('field_processor', None)
+                    c['bit_config']['43']['field_processor_config'] = '(?P<DE43_ALL>.*)'
+                    envdir = path + '_cfg'
+                    os.makedirs(envdir, exist_ok=True)
+                    with open(os.path.join(envdir, 'cardutil.json'), 'w') as f:
+                        json.dump(c, f)
+                    os.environ['CARDUTIL_CONFIG'] = envdir
+                try:
+                    mideu.cli_entry(['convert', path, '-s', 'ebcdic' if a == 'cp500' else 'ascii'] + ([] if fa else ['--no1014blocking']))
+                finally:
+                    if envdir:
+                        os.environ.pop('CARDUTIL_CONFIG', None)
+                        import shutil
+                        shutil.rmtree(envdir, ignore_errors=True)
             else:
                 args = [path, '-s', 'ebcdic' if a == 'cp500' else 'ascii'] + ([] if fa else ['--no1014blocking'])
                 if via == 'paramconv-o':
@@ -133,7 +154,7 @@ def impl(case):
 def model_lines(case, io_):
     b = lambda x: '1' if x else '0'
     if case['kind'] == 'ipm':
-        return ['ipm_convert %s %s %s %s %s %s' % ('1' if case['via'] == 'mideu' else '0', iu.hs(case['a']), iu.hs(case['b']), b(case['fa']), b(case['fb']), io_['orig'] or '-')]
+        return ['ipm_convert %s %s %s %s %s %s' % ('1' if case['via'].startswith('mideu') else '0', iu.hs(case['a']), iu.hs(case['b']), b(case['fa']), b(case['fb']), io_['orig'] or '-')]
     return ['pconvert %s %s %s %s %s' % (iu.hs(case['a']), iu.hs(case['b']), b(case['fa']), b(case['fb']), io_['orig'] or '-')]
 
 
